@@ -15,6 +15,7 @@ from .abstract import (
     NonSymmetricSubstitutionModel,
     SubstitutionModel,
     SymmetricSubstitutionModel,
+    identity_at_zero,
 )
 
 
@@ -317,7 +318,7 @@ class EmpiricalSubstitutionModel(SubstitutionModel):
 
     def p_t(self, branch_lengths: torch.Tensor) -> torch.Tensor:
         offset = branch_lengths.dim() - self.e.dim() + 1
-        return (
+        P = (
             (self.sqrt_pi_inv @ self.v).reshape(
                 self.e.shape[:-1] + (1,) * offset + self.sqrt_pi_inv.shape[-2:]
             )
@@ -329,6 +330,7 @@ class EmpiricalSubstitutionModel(SubstitutionModel):
                 self.e.shape[:-1] + (1,) * offset + self.sqrt_pi_inv.shape[-2:]
             )
         )
+        return identity_at_zero(P, branch_lengths)
 
     def eigen(self, Q: torch.Tensor) -> torch.Tensor:
         return torch.linalg.eigh(Q)
